@@ -56,9 +56,9 @@ Definition snap := (Z * Z * Z * bool * nat * nat * nat * nat * bool)%type.
 Record state := mkSt {
   sp : Z; sb : Z; args : Z; prg : bool; stash : nat;
   cs : list ctx; ts : list tframe; its : list nat; refs : nat;
-  jq : list job; intr : bool; log : list nat; pcount : nat; trace : list snap; leaked : bool }.
+  jq : list job; intr : bool; log : list nat; pcount : nat; trace : list snap; leaked : list nat }.
 
-Definition init : state := mkSt 0 (-1) 0 false 0 [] [] [] 0%nat [] false [] 0 [] false.
+Definition init : state := mkSt 0 (-1) 0 false 0 [] [] [] 0%nat [] false [] 0 [] [].
 
 Definition set_sp v s := mkSt v (sb s) (args s) (prg s) (stash s) (cs s) (ts s) (its s) (refs s) (jq s) (intr s) (log s) (pcount s) (trace s) (leaked s).
 Definition set_sb v s := mkSt (sp s) v (args s) (prg s) (stash s) (cs s) (ts s) (its s) (refs s) (jq s) (intr s) (log s) (pcount s) (trace s) (leaked s).
@@ -153,9 +153,12 @@ Variable faults : list (nat * fkind).         (* the k-th probe() call (0-based)
    does not pop what it never pushed (F21), a foreign Go panic leaving the outermost call drops the pending jobs (F22).
    Wherever I deviates from S the ghost flag [leaked] is set (it is never read by the algorithm). *)
 Variable fixed : bool.
-Definition deviate (s : state) : state := set_leaked true s.
+(* ghost: which recorded finding (16, 17, 21, 22) the execution ran into *)
+Definition deviate (id : nat) (s : state) : state := set_leaked (id :: leaked s) s.
 Definition host_panic_exit (s : state) : state :=
-  if Nat.eqb (length (cs s)) 0 then (if fixed then set_jq [] s else deviate s) else s.
+  if Nat.eqb (length (cs s)) 0 then
+    (if fixed then set_jq [] s else match jq s with [] => s | _ => deviate 22 s end)
+  else s.
 
 Definition raise (p : payload) (s : state) := handle_throw p s.
 
@@ -244,7 +247,7 @@ Definition native_call (n : Z) (f : state -> state * outcome) (s : state) : stat
 Definition gen_enter (s : state) : state * outcome :=
   if over lim s then (s, OPanic PSO) else
   let s1 := set_sb (-1) (set_prg false (push_try true false false (push_ctx s))) in
-  if over lim s1 then ((if fixed then pop_ctx (pop_try s1) else deviate s1), OPanic PSO) else
+  if over lim s1 then ((if fixed then pop_ctx (pop_try s1) else deviate 16 s1), OPanic PSO) else
   (set_sb (sp s - 1) (set_stash 0 (set_prg true (set_args 0 (push_ctx s1)))), ONorm).
 
 (* generator.enterNext + resume of a context suspended with a 2-slot stack segment *)
@@ -413,7 +416,7 @@ Fixpoint exec (fuel : nat) (nd : node) (s : state) {struct fuel} : state * outco
                 | (s5, ONorm) => (gen_leave s5, ONorm)
                 | (s5, OPanic p) =>
                     if catchable p || fixed then (pop_ctx (pop_try s5), OPanic p)
-                    else (deviate s5, OPanic p)
+                    else (deviate 16 s5, OPanic p)
                 | r => r
                 end
             | r => r
@@ -429,7 +432,7 @@ Fixpoint exec (fuel : nat) (nd : node) (s : state) {struct fuel} : state * outco
           | (s2, OPanic p) =>
               if catchable p then (set_sp (sp s) (pop_ctx (pop_try s2)), ONorm)
               else if fixed then raise p (pop_ctx (pop_try s2))
-              else raise p (deviate s2)
+              else raise p (deviate 16 s2)
           | r => r
           end
       | (s1, _) => (s1, OStuck)
@@ -474,7 +477,7 @@ Fixpoint exec (fuel : nat) (nd : node) (s : state) {struct fuel} : state * outco
         let fin (s : state) := pop_ctx (add_sp (-2) s) in
         if over lim s then
           (* pushCtx panicked before anything was pushed; the deferred function still does sp -= 2; popCtx *)
-          let s' := if fixed then s else deviate (fin s) in
+          let s' := if fixed then s else deviate 21 (fin s) in
           policy swallow (if Nat.eqb (length (cs s')) 0 then leave_abrupt s' else s') PSO
         else
         let s1 := set_prg true (add_sp 2 (set_sb (sp s + 1) (set_args 0 (set_stash 0 (push_ctx s))))) in
@@ -494,14 +497,11 @@ Fixpoint exec (fuel : nat) (nd : node) (s : state) {struct fuel} : state * outco
         | (s1, o, _) => (s1, o)
         end
   end end
-(* Runtime.leave (runtime.go:2836): drain the job queue; each job is vm.try(callback) *)
+(* Runtime.leave (runtime.go:2836): drain the job queue batch by batch (jobs, r.jobQueue = r.jobQueue, jobs[:0]);
+   each job is vm.try(callback); a panic leaving a job drops the rest of its batch *)
 with leave (fuel : nat) (s : state) {struct fuel} : state * outcome :=
   match fuel with O => (s, OStuck) | S f =>
-  match jq s with
-  | [] => (s, ONorm)
-  | j :: rest =>
-      let s0 := set_jq rest s in
-      let r :=
+  let run_job (j : job) (s0 : state) : state * outcome :=
         match j with
         | JThen body => vm_try (reentry (exec f) 1 body) s0
         | JAsync seg =>
@@ -515,14 +515,26 @@ with leave (fuel : nat) (s : state) {struct fuel} : state * outcome :=
                   | (s3, OPanic p) =>
                       if catchable p then (pop_ctx (pop_try s3), ONorm)
                       else if fixed then (pop_ctx (pop_try s3), OPanic p)
-                      else (deviate s3, OPanic p)
+                      else (deviate 16 s3, OPanic p)
                   | r => r
                   end
               | r => r
               end) s0
         end in
-      match r with
-      | (s1, ONorm) | (s1, OUnwound _) => leave f s1
+  let fix batch (js : list job) (s : state) : state * outcome :=
+    match js with
+    | [] => (s, ONorm)
+    | j :: rest =>
+        match run_job j s with
+        | (s1, ONorm) | (s1, OUnwound _) => batch rest s1
+        | r => r
+        end
+    end in
+  match jq s with
+  | [] => (s, ONorm)
+  | js =>
+      match batch js (set_jq [] s) with
+      | (s1, ONorm) => leave f s1
       | r => r
       end
   end end
@@ -532,7 +544,8 @@ with run_top (fuel : nat) (body : list node) (s : state) {struct fuel} : state *
   let fin (s : state) := set_cs (tl (cs s)) s in
   let recov (inbody : bool) (s : state) (p : payload) : state * outcome * option payload :=
     let s0 := fin s in
-    let s' := if fixed then set_sb (-1) (set_prg false s0) else if inbody then deviate s0 else s0 in
+    let s' := if fixed then set_sb (-1) (set_prg false s0)
+              else if inbody && prg s0 then deviate (if uncatchable_err p then 17 else 22)%nat s0 else s0 in
     if uncatchable_err p then ((if Nat.eqb (length (cs s')) 0 then leave_abrupt s' else s'), ONorm, Some p)
     else (host_panic_exit s', OPanic p, None) in
   let s1 := set_prg true (set_cs (halt_ctx :: cs s) s) in
